@@ -56,6 +56,24 @@ def gen_table(rng):
     return t
 
 
+def regen_values(rng, t):
+    """Same flight levels and masses as ``t``, fresh values."""
+    t2 = {'masses': list(t['masses'])}
+    for ph in ('climb', 'cruise', 'descent'):
+        p = t[ph]
+        q = {'fls': list(p['fls']), 'masses': list(p['masses']),
+             'tas': {f: rng.uniform(70, 260) for f in p['fls']}, 'ff': {}, 'rocd': {}}
+        for f in p['fls']:
+            ffv = rng.uniform(0.05, 4.0)
+            rov = rng.uniform(0.5, 25.0)
+            for m in p['masses']:
+                q['ff'][(f, m)] = ffv if ph != 'cruise' else rng.uniform(0.2, 3.0)
+                q['rocd'][(f, m)] = (rng.uniform(0.5, 45.0) if ph == 'climb' else
+                                     0.0 if ph == 'cruise' else -rov)
+        t2[ph] = q
+    return t2
+
+
 def table_rows(t, rng=None):
     rows = []
     for ph in ('climb', 'cruise', 'descent'):
